@@ -188,6 +188,11 @@ func ruleC13(c *Check, p *Prog) {
 		x := NewExt(p, NewStore(), Config{Opaque: opaquePkgs([]string{pkgRoot, pkgFFT}, false, nil)})
 		sum := x.Summarize(wfn, nil, nil)
 		S := x.S
+		// per-parameter blocks rolled into a tiny constant loop are unrolled again
+		unrollLoopsWithEffects(S, sum)
+		if os.Getenv("VERIF_DUMP_C13") == sc.Tag {
+			fmt.Fprint(os.Stderr, sum.Dump(p))
+		}
 		wwhere := p.Pos(wfn.Pos())
 		if len(sum.Undecided) > 0 {
 			c.Undecided("R-EXTRACT", "worker_"+sc.Tag, wwhere, "%s", strings.Join(sum.Undecided, "; "))
